@@ -53,9 +53,10 @@ def gen_history(rng: random.Random, nops: typing.Optional[int] = None) -> list[d
         k = rng.choice([0, 1, 1, 2, 2, 3])
         sizes = [rng.choice([1, 7, 64, 300, 9000]) for _ in range(k)]
         lose = rng.randrange(k) if k and rng.random() < 0.07 else None
+        crash = None if lose is not None else crashspec()
+        ioerr = 1 + rng.randrange(14) if crash is None and lose is None and rng.random() < 0.12 else None
         return {'op': 'train', 'project': rng.choice(PROJECTS[:nproj]), 'rel': rng.randint(0, 5),
-                'states': [rng.randbytes(n).hex() for n in sizes], 'crash': None if lose is not None else crashspec(),
-                'lose': lose}
+                'states': [rng.randbytes(n).hex() for n in sizes], 'crash': crash, 'lose': lose, 'ioerr': ioerr}
 
     ops.append({**publish(), 'crash': crashspec()})
     if rng.random() < 0.2:  # swarm: a deep single-release history with an administrative prune in the middle
@@ -633,7 +634,27 @@ class Run:
         executed = {**op, 'crash': resolved}
         where = f'op{idx} {label}' + (f' crash@{resolved["at"]}' + (f'/cut{resolved["cut"]}' if resolved["cut"] else '')
                                       if resolved else '')
-        res = self.incarnation().call(name, args, {'at': resolved['at'], 'cut': resolved['cut']} if resolved else None)
+        ioerr = op.get('ioerr') if not resolved and after is not None else None
+        if ioerr:
+            where += f' [transient I/O error in its directory listing #{ioerr}]'
+        res = self.incarnation().call(name, args, {'at': resolved['at'], 'cut': resolved['cut']} if resolved
+                                      else {'ioerr': ioerr} if ioerr else None)
+        if ioerr and any(e[1] == 'io-error-in-listing' for e in res.oplog):
+            # the fault fired: the operation may fail (then nothing may have changed) or may have got through; either way
+            # the registry is the old or the complete new content and every committed file is untouched
+            self.trace.append(executed)
+            self.stats[f'op:{kind}'] += 1
+            self.stats['fault:io-error-in-listing'] += 1
+            self.crash_site = f'{kind}:io-error-in-listing'
+            branch = self.settle(where, before, after)
+            self.stats[f'settled:{branch}'] += 1
+            if res.ok and branch == 'before':
+                raise base.Violation('verdict-mismatch', f'{where}: reported success but nothing was committed')
+            if kind == 'train' and res.ok and res.value != max(after[args['project']][args['release']]['gens']):
+                raise base.Violation('generation-number', f'{where}: committed as generation {res.value}')
+            self.check_append_only(where)
+            self.protect()
+            return
         self.trace.append(executed)
         self.stats[f'op:{kind}'] += 1
         if res.status == 'crashed':
